@@ -74,12 +74,15 @@ theorem pqLoop_sound (hv1 : Facts.C13.pqValue1 = 1) (what : Nat) (tape : List Na
     injection h with h
     rw [h] at this
     exact this
-  | case2 i g hc r1 r2 rest v x lim ih =>
+  | case2 => cases h
+  | case3 => cases h
+  | case4 => cases h
+  | case5 => cases h
+  | case6 i g hc r1 r2 rest hw v x lim ih =>
     apply ih _ h
     rcases rhoInner_inv what v (lim - 1) 1 x x g with e | e
     · rw [e]; exact hg
     · right; exact e
-  | case3 tape i g hc hne => cases h
 
 end TdModel.C13
 
@@ -245,5 +248,23 @@ theorem mulAddLoop_eq (w a b c : Nat) (ha : a < w) (hc : c < w) :
       rw [Nat.add_mod, Nat.mul_mod ((a + a) % w), Nat.mod_mod, ← Nat.mul_mod, ← Nat.add_mod]
       congr 1
       rw [Nat.add_zero, ← Nat.mul_assoc, Nat.mul_two]
+
+end TdModel.C13
+
+namespace TdModel.C13
+
+/-! ## The production DH prime (core.telegram.org/mtproto/auth_key; also the 2FA SRP modulus) -/
+
+def productionPrime : Nat :=
+  0xC71CAEB9C6B1C9048E6C522F70F13F73980D40238E3E21C14934D037563D930F48198A0AA7C14058229493D22530F4DBFA336F6E0AC925139543AED44CCE7C3720FD51F69458705AC68CD4FE6B6B13ABDC9746512969328454F18FAF8C595F642477FE96BB2A941D5BCD1D4AC8CC49880708FA9B378E3C4F3A9060BEE67CF9A4A4A695811051907E162753B56B0F6B410DBA74D8A84B2A14B3144E0EF1284754FD17ED950D5965B4B9DD46582DB1178D169C6BC465B0D6FF9CA3928FEF5B9AE4E418FC15E83EBEA0F87FA9FF5EED70050DED2849F47BF959D956850CE929851F0D8115F635B105EE2E4E15D04B2454BF6F4FADF034B10403119CD8E3B92FCC5B
+
+set_option exponentiation.threshold 4096 in
+theorem productionPrime_bits : 2 ^ 2047 ≤ productionPrime ∧ productionPrime < 2 ^ 2048 := by
+  unfold productionPrime; decide
+
+theorem productionPrime_residues :
+    productionPrime % 8 = 3 ∧ productionPrime % 3 = 2 ∧ productionPrime % 5 = 3 ∧
+    productionPrime % 24 = 11 ∧ productionPrime % 7 = 6 := by
+  unfold productionPrime; decide
 
 end TdModel.C13
